@@ -82,13 +82,14 @@ def _shuffle_q(rng, K):
 # symbol and C a positive integer": accepting one of them is itself a violation
 # of C12 (oracle invalid_update_rejected)
 BAD_KEYS = ("Xx", "C1", "", "?+1", "CC", "C+", "C++1", "+1", "C+1+", "C+a", "C-",
-            "C+-1", "C +1", "C+1 ", " C", "Cl+", "N+1.0", "O-1-1", "C+1e1", "-", "+", "1", "C+1-", "Zz+2")
+            "C+-1", "C +1", "C+1 ", " C", "Cl+", "N+1.0", "O-1-1", "C+1e1", "-", "+", "1", "C+1-", "Zz+2",
+            # whitespace / control characters, combining marks and homoglyphs are not element symbols
+            "Cl\n", "S+1\n", "O-1\r", "C\t", "\nC", "C+1\x00", "Cl ", "S\n", "N+1\n", "C\u0301", "\u0421", "C+1_0")
 # keys a validator may or may not accept (acceptance is not judged by C12), but
 # which, once accepted, must be spellable as SELFIES symbols (C07)
 ODD_KEYS = ("C+0", "C+01", "N-0", "O+00", "C-\u00b2", "N+\u0661", "S+007", "C+10", "N-10",
-            "Fe+20", "O+100", "c", "*", "R", "D", "Cl\n", "S+1\n", "C+1\u0662", "Fe+2\u0969",
-            "N+\uff11", "C+1\u00b2", "O-1\r", "C\t", "\nC", "C+1\x00", "Cl ", "C+1_0", "N+1\u0660",
-            "C\u0301", "\u0421", "C+\u0967\u0966")
+            "Fe+20", "O+100", "c", "*", "R", "D", "C+1\u0662", "Fe+2\u0969",
+            "N+\uff11", "C+1\u00b2", "N+1\u0660", "C+\u0967\u0966")
 BAD_VALUES = ("-1", "-7", "2.0", "2.5", "'3'", "None", "[1]", "(2,)", "-0.0", "1e0", "{}")
 BAD_PRESETS = ("octet", "Default", "", "hyper-valent", "default ", "OCTET_RULE", "?", "C")
 BAD_ARGS = ("None", "4", "2.5", "[('C', 4), ('?', 8)]", "(('?', 8),)", "['?']", "{'?'}",
@@ -176,7 +177,8 @@ NOVEL = ("[CH3]", "[CH2]", "[CH1]", "[=CH1]", "[NH1]", "[NH2+1]", "[NH3+1]", "[N
 SPECIAL = ("[nop]", "[epsilon]", "[nop]")
 COMPAT = ("[Branch1_1]", "[Branch1_2]", "[Branch2_3]", "[Expl=Ring1]", "[Expl#Ring2]", "[Expl/Ring1]",
           "[Expl\\Ring1]", "[C@@Hexpl]", "[NHexpl]", "[=N+expl]", "[O-expl]", "[Siexpl]", "[/C@Hexpl]", "[nHexpl]")
-INVALID = ("[C@@Hexpl]", "[NHexpl]", "[Branch1_2]", "[Expl=Ring1]", "[=N+expl]", "[Q]", "[C", "[]", "[CH10]", "[c]", "[C+]", "[C+0]", "[=Ring4]", "[Branch4]", "[#Ring1x]",
+HUGE_ISOTOPE = "[" + "1" * 4400 + "C]"
+INVALID = (HUGE_ISOTOPE, "[C@@Hexpl]", "[NHexpl]", "[Branch1_2]", "[Expl=Ring1]", "[=N+expl]", "[Q]", "[C", "[]", "[CH10]", "[c]", "[C+]", "[C+0]", "[=Ring4]", "[Branch4]", "[#Ring1x]",
            "[1]", "[C@@@]", "[Xx]", "[=]", "[ C]", "[C=]", "[CH]", "[Cl-]", "[Branch]", "[$C]")
 
 
@@ -324,12 +326,15 @@ SMILES_OK = (
     "c1cc[se]c1", "C1=C[Te]C=C1", "[Si](C)(C)(C)C", "B(O)(O)O", "[BH4-]", "[NH4+]", "[OH3+]",
     "F[Xe](F)(F)F", "Cl(=O)(=O)(=O)O", "I(F)(F)(F)(F)(F)(F)F", "N(=O)(=O)O", "C=C=C=C",
     "C:C:C:C", "C1:C:C:C:C:C:1", "N:C:C:N", "C:C", "CC:CC(F):C:C",
+    "c12c3ccc1cc2c3", "c12c3c1c2c3c4cc4", "c12c3c1c2cc4cc34", "c12c3c4c1cc3c4c2", "c12c3cc4c1cc4c23", "c12c3ccc1cc2ccc3",
+    "c12c3cc4c1c3ccc4c2", "c12c3cc4c3c4ccc1c2", "c12c3ccc1c(F)c2c3", "Oc1oc(c2ccccc2)c(n1)c3ccccc3", "c12c3cc4c1cc4c2cc3",
     "[CH3:1][CH2:2]O", "[C:12](F)(F)(F)Cl", "C1CCCCCCCCCCCCCCCCCC1", "C(CCCCCCCCCCCCCCCCCCC)(F)Cl",
     "C1CCCCCCCCCCCCCCCCCC1C2CCCCCCCCCCCCCCCCCC2", "F/C=C/C=C\\C=C/Cl", "C[C@H]1CC[C@@H](C)CC1", "O[C@@H]1CC[C@]21CCC2",
     "[H]C([H])([H])[H]", "[2H]C([3H])=O", "[O--]", "[Fe+++]", "[NH3+][CH2][C](=O)[O-]", "C%11CC%11C%12CC%12",
     "C/C=C/C=C/C", "C[S@](=O)N", "[C@H]1(F)(Cl)CCC1", "O=C(O)[C@@H]1CCCN1", "C12C3C4C1C5C2C3C45",
 )
-SMILES_BAD = ("C:C:C", "C:C:C:C:C", "N:O:C", "C(", "C1CC", "cc", "[Xx]", "C)", "", "C((C))", "C=", "c1ccc1", "C$C", "C*", "[C", "C1CC2",
+SMILES_BAD = ("C:C:C", "C:C:C:C:C", "N:O:C", "c1ccc2c(c1)ccn2", "c1ccc2c(c1)cco2C", "c1cccc1", "c1ccccc1c", "n1cccc1",
+              "c12c3ccc1cc2c3c", "c1cc2cccc2c1", "C(", "C1CC", "cc", "[Xx]", "C)", "", "C((C))", "C=", "c1ccc1", "C$C", "C*", "[C", "C1CC2",
               "1CC1", "(C)", "C..C", "C.", "c1cccc1", "[nH]1ccccc1", "C%1", "C[C@@@H]", "C:::C",
               "C1=CC=1", "C(C)(", ".C")
 
